@@ -2,41 +2,55 @@
 
 PROP = {'drive': ['T2'], 'harness_files': ['area_t2.go'], 'modules': ['SfntV.Props.C04'],
  'required_theorems': ['C04_number_partial',
-                       'C04_number_bigstep_fails'],
+                       'C04_number_bigstep_fails',
+                       'C04_operand_decodes',
+                       'C04_edge_sound_partial',
+                       'C04_edge_bytes',
+                       'C04_path_sound_partial'],
  'areas': [('t2enc', 3000, 100000)],
  'rule': 'distinct case lines (a float as n/2^k; a glyph: commands at scale 2^-20, stems, masks, width, '
-         'default/nominal width, plus the charstring the real encoder emitted); non-trivial = number cases '
-         'and glyphs with more than two commands',
- 'partial': ['Only encodeNumber is modelled and proved (C04_number_partial, hypothesis |x| <= 32767 forced by '
-             'the code: C04_number_bigstep_fails is the witness for defect #20).',
-             'NOT modelled / NOT proved: encodeArgs, the edge proposals of encoder.AppendEdges (C04_edge_sound, '
-             'C04_path_sound over every path of proposed edges), header assembly (width prefix, stem chunks, '
-             'hstemhm/vstemhm, implicit vstem), C04_no_accumulation, C04_width, stack <= 48. For these the '
-             'property is checked on the real code only, by the D stream t2.rt: the specification interpreter '
-             '(interp strict, which enforces stack <= 48, legal operand counts and endchar) executed on the bytes '
-             'emitted by (*Glyph).encodeCharString must reproduce path, stems, masks and width within 2^-17 per '
-             'coordinate (sampled, 0 failures inside the hypothesis).',
-             'The hooks VerifT2EncodeArgs / VerifT2Edges / VerifT2ChosenPath exist in '
-             '/repo/cff/verif_export_t2.go for the edge-level V streams but are not used yet.',
+         'default/nominal width; per glyph four lines: encodeArgs, edge proposals at every node, assembly of the '
+         'Go-chosen path, specification round trip of the emitted bytes); non-trivial = number cases and glyphs '
+         'with more than two commands',
+ 'partial': ['C04_number_partial: hypothesis |x| <= 32767 forced by the code (C04_number_bigstep_fails is the witness '
+             'for defect #20, known finding C04-bigstep).',
+             'C04_edge_sound_partial / C04_path_sound_partial cover the edges for rlineto, hlineto, vlineto, '
+             'rlinecurve, rrcurveto, rcurveline, hhcurveto, vvcurveto, hflex, hflex1; the edges for hvcurveto and '
+             'vhcurveto are modelled (V stream t2.edges, exact) but their soundness is NOT proved yet '
+             '(C04_edge_sound_full, C04_path_sound_full are stated as definitions). For them the property rests on '
+             'the D stream t2.rt.',
+             'The path theorems are stated with the specification interpreter\'s step function (relation Reaches: '
+             'finitely many successful steps, each consuming code); the wrapper that turns this into a statement '
+             'about Spec.T2.interp of a whole charstring (moveto, masks, header, endchar around the sub-paths) is not '
+             'proved: C04_header (width prefix, stem chunks of 24/23 pairs, hstemhm/vstemhm, implicit vstem), '
+             'C04_no_accumulation, C04_width, C04_endchar are NOT proved. Header assembly, encodeArgs and encodePaths '
+             'are modelled and tied by exact V streams (t2.encargs, t2.asm) and checked end to end by t2.rt.',
              'Glyphs whose coordinates use the whole +-32000 box (steps up to 64000) are run as diagnostics (kind G): '
-             'about 40% of them read back wrong (finding C04-bigstep, #20).',
+             'about a quarter of them read back wrong (finding C04-bigstep, #20).',
              '#19 (fractional default/nominal width truncated in the Private DICT) is outside encodeCharString; it '
              'belongs to C13 and is not exercised here (dw/nw are integers in the generated cases).'],
  'modelled_not_verified': ['float64 arithmetic of encodeNumber: modelled exactly on dyadic rationals n/2^k '
                            '(float subtraction x16-x and scaling by 65536 are exact for |x| < 2^36); the amd64 '
                            'result of an out-of-range float->int32/int16 conversion (0x80000000, low 16 bits) is '
                            'modelled as observed',
-                           'seehuhn.de/go/dijkstra is not modelled (and, so far, not needed: no edge theorem)'],
+                           'seehuhn.de/go/dijkstra is not modelled: the theorems quantify over every path of proposed edges; that the '
+                           'Go-chosen path is such a path is checked per case by the V stream t2.asm'],
  'assumptions': ['Specification interpreter = Spec.T2.interp of C05 (TN5177 as remembered)',
                  'Stem values fractional beyond 16.16 are not generated (stem deltas are rounded one by one against '
                  'the unrounded previous edge, so their rounding errors can add up along the stem list)']}
 
-LEVEL = {'text': 'Partial proof + direct check: encodeNumber is proved correct against the Type 2 interpreter for all '
-         'floats |x| <= 32767 (code read back as the reported value, error <= 2^-17) and proved wrong beyond (defect '
-         '#20, witness 64000); model tied to the Go function by value- and byte-exact correspondence. The rest of '
-         'the compiler (operator selection, header) is not modelled: the property itself is evaluated on the real '
-         'encoder output with the Lean specification interpreter on generated glyphs (all operator forms, runs longer '
-         'than the stack limit, 0..96 stems, masks first and mid-path, default/explicit widths).',
- 'note': 'Level is proof only for the number encoder; everything else is differential testing against the Lean '
-         'specification interpreter.',
- 'technique': 'Lean 4 proof (omega over div/mod, rounding lemma) + spec-interpreter round trip of real encoder output'}
+LEVEL = {'text': 'Proof + correspondence: encodeNumber proved correct against the Type 2 interpreter for all floats '
+         '|x| <= 32767 (and proved wrong beyond: defect #20). encodeArgs, every edge proposal of encoder.AppendEdges '
+         '(all twelve operator forms with the maxStack bound), encodePaths and the header assembly are modelled in '
+         'Lean and agree exactly with the Go code on every generated glyph (edges at every node, not only the chosen '
+         'path). Proved for all inputs: every proposed rlineto/hlineto/vlineto/rlinecurve/rrcurveto/rcurveline/'
+         'hhcurveto/vvcurveto/hflex/hflex1 edge is sound (<= 48 operands, legal count, draws exactly the covered commands under the '
+         'specification interpreter), and ANY path of such edges compiles to bytes the specification interpreter '
+         'executes as exactly the sub-path (the shortest-path routine is an untrusted oracle). Not proved: the '
+         'hvcurveto/vhcurveto forms, header and whole-charstring wrapper; for those the property is evaluated on the '
+         'real encoder output with the Lean specification interpreter (D stream), with targeted generator families '
+         'around every applicability condition of every operator form.',
+ 'note': 'Trusted: Lean kernel + 3 standard axioms; hand-written model tied by exact sampled correspondence; TN5177 as '
+         'remembered; float subtraction in encodeArgs exact for the generated scales.',
+ 'technique': 'Lean 4 model of the optimiser\'s edge relation + soundness of every edge / every path (induction over '
+              'the proposing loops) + differential correspondence at edge level + spec-interpreter round trip'}
